@@ -223,6 +223,7 @@ theorem clientStep_inv {cr : Crypto} {cfg : Cfg} {st : CState} (m : Bytes) (hinv
   split
   · exact hinv
   · exact hinv
+  · exact hinv
   · exact hinv.frame (clientOnLine_frame cfg st m)
   · split
     · exact hinv.frame ⟨rfl, rfl, rfl⟩
@@ -520,6 +521,7 @@ theorem serverStep_inv {cr : Crypto} {cfg : Cfg} {st : SState} (m : Bytes) (hinv
   split
   · exact hinv
   · exact hinv
+  · exact hinv
   · exact hinv.frame (serverOnLine_frame cfg st m)
   · split
     · exact hinv.frame ⟨rfl, rfl, rfl, rfl, rfl⟩
@@ -717,6 +719,7 @@ theorem clientStep_phase {cr : Crypto} {cfg : Cfg} {st : CState} (m : Bytes) (h 
     CPhaseInv (clientStep cr cfg st m).1 := by
   unfold clientStep
   split
+  · exact h
   · exact h
   · exact h
   · unfold clientOnLine CPhaseInv
